@@ -239,7 +239,7 @@ impl RustGenerator<'_> {
         if doc_alt && self.options.introspection {
             for doc in doc {
                 let doc = doc.value_inner();
-                codeln!(self, "#[aldrin(doc = \"{doc}\")]");
+                codeln!(self, "#[aldrin(doc = {doc:?})]");
             }
         }
 
@@ -268,7 +268,7 @@ impl RustGenerator<'_> {
             if doc_alt && self.options.introspection {
                 for doc in field.doc() {
                     let doc = doc.value_inner();
-                    codeln!(self, "    #[aldrin(doc = \"{doc}\")]");
+                    codeln!(self, "    #[aldrin(doc = {doc:?})]");
                 }
             }
 
@@ -291,7 +291,7 @@ impl RustGenerator<'_> {
             if doc_alt && self.options.introspection {
                 for doc in fallback.doc() {
                     let doc = doc.value_inner();
-                    codeln!(self, "    #[aldrin(doc = \"{doc}\")]");
+                    codeln!(self, "    #[aldrin(doc = {doc:?})]");
                 }
             }
 
@@ -352,7 +352,7 @@ impl RustGenerator<'_> {
         if doc_alt && self.options.introspection {
             for doc in doc {
                 let doc = doc.value_inner();
-                codeln!(self, "#[aldrin(doc = \"{doc}\")]");
+                codeln!(self, "#[aldrin(doc = {doc:?})]");
             }
         }
 
@@ -376,7 +376,7 @@ impl RustGenerator<'_> {
             if doc_alt && self.options.introspection {
                 for doc in var.doc() {
                     let doc = doc.value_inner();
-                    codeln!(self, "    #[aldrin(doc = \"{doc}\")]");
+                    codeln!(self, "    #[aldrin(doc = {doc:?})]");
                 }
             }
 
@@ -400,7 +400,7 @@ impl RustGenerator<'_> {
             if doc_alt && self.options.introspection {
                 for doc in fallback.doc() {
                     let doc = doc.value_inner();
-                    codeln!(self, "    #[aldrin(doc = \"{doc}\")]");
+                    codeln!(self, "    #[aldrin(doc = {doc:?})]");
                 }
             }
 
@@ -457,7 +457,7 @@ impl RustGenerator<'_> {
         if doc_alt && self.options.introspection {
             for doc in svc.doc() {
                 let doc = doc.value_inner();
-                codeln!(self, "    #[aldrin(doc = \"{doc}\")]");
+                codeln!(self, "    #[aldrin(doc = {doc:?})]");
             }
         }
 
@@ -480,7 +480,7 @@ impl RustGenerator<'_> {
                     if doc_alt && self.options.introspection {
                         for doc in func.doc() {
                             let doc = doc.value_inner();
-                            codeln!(self, "        #[aldrin(doc = \"{doc}\")]");
+                            codeln!(self, "        #[aldrin(doc = {doc:?})]");
                         }
                     }
 
@@ -524,7 +524,7 @@ impl RustGenerator<'_> {
                     if doc_alt && self.options.introspection {
                         for doc in ev.doc() {
                             let doc = doc.value_inner();
-                            codeln!(self, "        #[aldrin(doc = \"{doc}\")]");
+                            codeln!(self, "        #[aldrin(doc = {doc:?})]");
                         }
                     }
 
@@ -552,7 +552,7 @@ impl RustGenerator<'_> {
             if doc_alt && self.options.introspection {
                 for doc in fallback.doc() {
                     let doc = doc.value_inner();
-                    codeln!(self, "        #[aldrin(doc = \"{doc}\")]");
+                    codeln!(self, "        #[aldrin(doc = {doc:?})]");
                 }
             }
 
@@ -571,7 +571,7 @@ impl RustGenerator<'_> {
             if doc_alt && self.options.introspection {
                 for doc in fallback.doc() {
                     let doc = doc.value_inner();
-                    codeln!(self, "        #[aldrin(doc = \"{doc}\")]");
+                    codeln!(self, "        #[aldrin(doc = {doc:?})]");
                 }
             }
 
@@ -796,7 +796,7 @@ impl RustGenerator<'_> {
         if doc_alt && self.options.introspection {
             for doc in newtype_def.doc() {
                 let doc = doc.value_inner();
-                codeln!(self, "#[aldrin(doc = \"{doc}\")]");
+                codeln!(self, "#[aldrin(doc = {doc:?})]");
             }
         }
 
